@@ -475,6 +475,8 @@ def u_check_start(ip: Interp, th: PoolTheory):
     st = th.initial()
     aw, fn = RefV(fresh("a_awaitable", Ref)), RefV(fresh("a_function", Ref))
     ign = BoolV(fresh("a_ignore_lock", B))
+    for r in (aw, fn):  # assumption U10: objects handed to the pool are truthy unless None
+        st.assume(z3.Implies(r.t != NONE, z3.Select(sym.TRUTHY, r.t)))
     st0 = st.fork()
     p = PView(st0)
     both_or_neither = (aw.t == NONE) == (fn.t == NONE)
@@ -543,7 +545,7 @@ def entry_point_unit(which: str):
         install(ip)
         st = th.initial()
         func = RefV(fresh("a_func", Ref))
-        st.assume(func.t != NONE)
+        st.assume(z3.And(func.t != NONE, z3.Select(sym.TRUTHY, func.t)))  # U10
         gname = OptV(fresh("a_group_none", B), StrV(fresh("a_group", S)))
         ecb, ccb = RefV(fresh("a_ecb", Ref)), RefV(fresh("a_ccb", Ref))
         if which == "apply":
@@ -639,7 +641,7 @@ for _w in ("apply", "_map", "map", "starmap", "doublestarmap"):
 def u_start(ip: Interp, th: PoolTheory):
     install(ip)
     st = th.initial()
-    st.assume(st.sh["_func"].t != NONE)
+    st.assume(z3.And(st.sh["_func"].t != NONE, z3.Select(sym.TRUTHY, st.sh["_func"].t)))  # U10
     num = IntV(fresh("a_num", I))
     st0 = st.fork()
     p0 = PView(st0)
